@@ -1,4 +1,4 @@
-use super::{DecoderError, NeedMore};
+use super::DecoderError;
 use crate::ext::Protocol;
 
 use bytes::Bytes;
@@ -63,7 +63,9 @@ impl Header<Option<HeaderName>> {
 impl Header {
     pub fn new(name: Bytes, value: Bytes) -> Result<Header, DecoderError> {
         if name.is_empty() {
-            return Err(DecoderError::NeedMore(NeedMore::UnexpectedEndOfStream));
+            // Not a shortfall: the field has been read completely (and taken
+            // out of the buffer), more input will not make its name valid.
+            return Err(DecoderError::InvalidRepresentation);
         }
         if name[0] == b':' {
             match &name[1..] {
